@@ -660,7 +660,8 @@ class Interp:
                         any_truthy = True
                         yield x
             except JqError:
-                pass
+                # jq 1.6 propagates an error raised on the left of //; later releases differ -> no claim
+                raise Unsupported("error raised on the left of // (version dependent)")
             if not any_truthy:
                 yield from self.ev(e[2], inp, env)
         elif k == "if":
